@@ -294,6 +294,17 @@ func (ex *Exec) callFunction(fr *Frame, st *State, fn *ssa.Function, args []SVal
 		ex.applyContract(fr, st, blk, name, fn.Signature, args, nil, ex.w.funcWrites(fn), pos, k)
 		return
 	}
+	if (len(fn.Blocks) == 0 || !ex.w.inPackage(fn)) && pureLibrary(fn) {
+		// a function (not a method) of a side-effect-free standard package: no write, no panic, an unknown result -
+		// enough for every safety and frame obligation; nothing functional follows from it
+		if ex.w.pureUsed == nil {
+			ex.w.pureUsed = map[string]bool{}
+		}
+		ex.w.pureUsed[name] = true
+		ex.havocWrites(st, map[string]bool{"alloc": true}, nil, nil)
+		k(st, ex.havocResult(st, fn.Signature.Results()))
+		return
+	}
 	if len(fn.Blocks) == 0 || !ex.w.inPackage(fn) {
 		ex.errorf("%s: call of external %s without extern contract", fnName(fr.fn), name)
 		ex.havocWrites(st, map[string]bool{"alloc": true}, nil, nil)
@@ -982,6 +993,35 @@ func (w *World) inPackage(fn *ssa.Function) bool {
 			t = p.Elem()
 		}
 		if n, ok := t.(*types.Named); ok && n.Obj().Pkg() == w.pkg.Pkg {
+			return true
+		}
+	}
+	return false
+}
+
+// pureLibrary: package-level functions of standard packages that neither write caller-visible memory nor panic for any
+// argument (strings.Repeat and the like, which panic on bad arguments, are left out)
+func pureLibrary(fn *ssa.Function) bool {
+	if fn.Signature.Recv() != nil || fn.Pkg == nil || fn.Pkg.Pkg == nil {
+		return false
+	}
+	switch fn.Pkg.Pkg.Path() {
+	case "strings":
+		switch fn.Name() {
+		case "Repeat", "NewReplacer", "NewReader":
+			return false
+		}
+		return true
+	case "unicode", "unicode/utf8", "math", "math/bits":
+		return true
+	case "strconv":
+		switch fn.Name() {
+		case "Itoa", "Quote", "FormatInt", "FormatUint", "FormatFloat", "FormatBool", "QuoteRune", "ParseInt", "ParseUint", "ParseBool", "Unquote":
+			return true
+		}
+	case "sort":
+		switch fn.Name() {
+		case "SearchInts", "SearchStrings", "StringsAreSorted", "IntsAreSorted":
 			return true
 		}
 	}
